@@ -75,6 +75,12 @@ def check_curve(ctx, sy, grid, mean, inp):
         return [float(v) for v in sr.compute_rise_curve(sy, np.array(grid, dtype=float), mean)]
     CURVES[0] += 1
     g = common.any_layout(ctx.rng, np.array(grid, dtype=float), p=(1.0 if CURVES[0] % 3 == 0 else 0.25))   # every third curve for sure
+    if g.dtype.kind == "f" and CURVES[0] % 5 == 1:        # every fifth curve
+        # levels read from a single-precision file (netCDF / HDF loggers): the curve is owed on THOSE levels, exactly
+        g = g.astype(np.float32)
+        grid = [float(v) for v in g]
+        inp = dict(inp, grid=grid, grid_dtype="float32")
+        ctx.count("grids_in_single_precision")
     snap_g = common.snapshot(g)
     try:
         with sim.record_integrate(sy) as calls:
